@@ -668,6 +668,58 @@ def gen_case(rng, delayed_ok=None, entry_ok=True):
     return case
 
 
+# bracket classes (wave 5): the model's glob is the whole of fnmatch.translate now
+
+def bracket_pattern(rng, names, star=True):
+    """a pattern built around a task name with one character replaced by a bracket expression (plain, negated, range,
+    empty range, `]` first, trailing / leading hyphen, the `!`-after-empty-range corner, backslash, unterminated `[`)"""
+    base = rng.choice(names) if names else 'a'
+    i = rng.randrange(len(base)) if base else 0
+    ch = base[i:i + 1] or 'a'
+    other = rng.choice('abc1x]?[-!^\\')
+    up = chr(min(ord(ch) + 2, 126))
+    down = chr(max(ord(ch) - 1, 33))
+    cls = rng.choice([
+        '[%s%s]' % (ch, other), '[%s%s]' % (other, ch), '[!%s]' % other, '[!%s]' % ch, '[!%s%s]' % (other, ch),
+        '[%s-%s]' % (ch, up), '[%s-%s]' % (down, up), '[!%s-%s]' % (down, up), '[%s-%s]' % (up, ch), '[!%s-%s]' % (up, ch),
+        '[]%s]' % ch, '[!]%s]' % other, '[%s-]' % ch, '[-%s]' % ch, '[!-%s]' % other, '[b-a!]', '[b-a!%s]' % other,
+        '[b-a!-%s]' % other, '[%s-%s-%s]' % (down, ch, up), '[\\%s]' % ch, '[%s' % ch, '[', '[]', '[!]', '[!', '[a-z]',
+        '[0-9]', '[!a-z]', '[a-c1-3]', '[[]', '[]]', '[?]', '[*]'])
+    pat = base[:i] + cls + base[i + 1:]
+    if not star:
+        return pat
+    k = rng.randrange(len(pat) + 1)
+    return rng.choice([pat + '*', '*' + pat, pat[:max(k, i + len(cls))] + '*', '*' + pat[i:], cls + '*', '*' + cls,
+                       base[:i] + cls + '*', '*' + cls + '*'])
+
+
+def bracketize(rng, case):
+    """put bracket patterns into the selection words and the task_dep of a generated case (in place; the case stays
+    valid: a task_dep pattern that would close a cycle is taken out again).  A word / task_dep without `*` is a literal
+    for doit whatever else it contains."""
+    names = all_names(case)
+    words = 'argv' if case['argv'] or case.get('default') is None else 'default'
+    lst = list(case[words] or [])
+    for _ in range(rng.choice([1, 1, 2])):
+        w = bracket_pattern(rng, names, star=rng.random() < 0.8)
+        pos = rng.randrange(len(lst) + 1)
+        # not behind an option word (it would be taken as its value), not as the first word of a cli run when it is `-…`
+        while pos > 0 and lst[pos - 1].startswith('-'):
+            pos -= 1
+        if w.startswith('-'):
+            continue
+        lst.insert(pos, w)
+    case[words] = lst
+    defs = [f for f in flat_defs(case) if not f[1].get('delayed')]
+    if defs and rng.random() < 0.6:
+        full, d, grp, is_group = rng.choice(defs)
+        w = bracket_pattern(rng, names, star=True)
+        d['task_dep'] = list(d.get('task_dep') or []) + [w]
+        if not valid_case(case):
+            d['task_dep'].pop()
+    return case
+
+
 def render(case):
     """one line a human can retype"""
     parts = []
